@@ -208,8 +208,13 @@ impl HalfConnection {
             let send_rate = self.send_rate_comp.send_rate();
             let rtt_s = self.send_rate_comp.rtt_s();
 
-            let delta_time = (now - time_last_flushed).as_secs_f64();
-            let new_bytes = (send_rate * delta_time).round() as isize;
+            // Whole bytes accrued at the current rate up to either instant, counted from the start of the
+            // connection. Rounding each step's own increment let the credit drift away from rate * time:
+            // frequent steps either gained up to half a byte each (sending above the rate) or never
+            // gained anything at all.
+            let time_prev = (time_last_flushed - self.time_base).as_secs_f64();
+            let time_now = (now - self.time_base).as_secs_f64();
+            let new_bytes = (send_rate * time_now).floor() as isize - (send_rate * time_prev).floor() as isize;
             let alloc_max = (send_rate * rtt_s.unwrap_or(0.0)).round() as isize;
 
             self.flush_alloc = self.flush_alloc.saturating_add(new_bytes).min(alloc_max);
